@@ -118,8 +118,11 @@ private:
   };
 
   // TODO - make this configurable via policy.
-  static constexpr unsigned step_size = 11;
+  // step_size has to be coprime to entries_per_node, otherwise different indexes would map to the same entry.
+  static constexpr unsigned step_size =
+    entries_per_node % 11 != 0 ? 11 : (entries_per_node % 13 != 0 ? 13 : (entries_per_node % 17 != 0 ? 17 : 19));
   static constexpr unsigned max_idx = step_size * entries_per_node;
+  static_assert(entries_per_node % step_size != 0, "entries_per_node must not be a multiple of 11 * 13 * 17 * 19");
 
   struct node : reclaimer::template enable_concurrent_ptr<node> {
     // pop_idx and push_idx are incremented by step_size to avoid false sharing, so the
